@@ -131,6 +131,37 @@ Definition case_ok (s : snapshot) (loaded : list snapshot) (obs : list (channel 
    && forallb (fun co => obs_sound s (snd co)) obs
    && all_consistent (map snd obs)).
 
+(* ---- histories of dumps with several writers ------------------------------------- *)
+(* what the harness saw, step by step; `live` = get_stats() of the dumping profiler at
+   the moment of the dump, `loaded` = load_stats(file) right after the step *)
+Inductive hobs :=
+| HDump (f : Z) (live : snapshot) (loaded : option snapshot)
+| HForeign (f : Z) (s : snapshot)           (* someone else pickles s into the file *)
+| HDelete (f : Z)
+| HLoad (f : Z) (loaded : option snapshot).
+
+Definition osnap_eqb (a b : option snapshot) : bool := opt_eqb snapshot_eqb a b.
+Definition hworld := world unit snapshot snapshot.
+Definition h_dump (f : Z) (w : hworld) : hworld := dump_stats unit snapshot (fun s => s) snapshot (fun s => s) f w.
+Definition h_load (w : hworld) (f : Z) : option snapshot := load_stats unit snapshot (fun s => Some s) snapshot w f.
+
+(* (model file system = what load_stats returned, the property: loaded = live at every dump) *)
+Fixpoint hist_walk (hs : list hobs) (w : hworld) : bool * bool :=
+  match hs with
+  | [] => (true, true)
+  | HDump f live loaded :: t =>
+      let w1 := h_dump f (World live (fs w) (out w)) in
+      let '(m, sp) := hist_walk t w1 in
+      (osnap_eqb (h_load w1 f) loaded && m, osnap_eqb (Some live) loaded && sp)
+  | HForeign f s :: t => hist_walk t (write_file unit snapshot snapshot f (Pkl s) w)
+  | HDelete f :: t => hist_walk t (delete_file unit snapshot snapshot f w)
+  | HLoad f loaded :: t =>
+      let '(m, sp) := hist_walk t w in
+      (osnap_eqb (h_load w f) loaded && m, sp)
+  end.
+Definition hist_ok (hs : list hobs) : bool * bool :=
+  hist_walk hs (World (Snap [] (FUnit 0 (1 # 1))) [] []).
+
 (* tiny self-test so that a broken checker cannot pass silently *)
 Definition t_unit : funit := FUnit 1 (1 # 1000000000).
 Definition t_snap : snapshot := Snap [((2, 10, 1), [(11, 1, 700); (12, 1000, 153000)]); ((1, 3, 2), [])] t_unit.
@@ -144,5 +175,8 @@ Example selftest :
   case_ok t_snap [t_snap] [(ChKernprofView None true false, t_obs); (ChViewer None true false false false, t_obs)] = (true, true)
   /\ case_ok t_snap [t_snap] [(ChKernprofView None true false, t_obs_bad)] = (false, false)
   /\ case_ok t_snap [t_snap] [(ChKernprofView None false false, t_obs)] = (false, true)
-  /\ case_ok t_snap [Snap [] t_unit] [] = (true, false).
+  /\ case_ok t_snap [Snap [] t_unit] [] = (true, false)
+  /\ hist_ok [HDump 1 t_snap (Some t_snap); HForeign 1 (Snap [] t_unit); HLoad 1 (Some (Snap [] t_unit));
+              HDump 1 t_snap (Some t_snap); HDelete 1; HLoad 1 None] = (true, true)
+  /\ hist_ok [HDump 1 t_snap (Some t_snap); HForeign 1 (Snap [] t_unit); HDump 1 t_snap (Some (Snap [] t_unit))] = (false, false).
 Proof. vm_compute. repeat split. Qed.
